@@ -214,14 +214,14 @@ def run(ctx):
     # reads interleaved on ONE object: two scans advanced in lock step, and point lookups made while a scan is live
     try:
       pairs = list(zip(fd.client_ids(), fd.client_sizes()))
-      if [p[0] for p in pairs] != sorted(ids) or any(p[0] != p[1][0] or p[1][1] != len(data[p[0]]['y']) for p in pairs):
+      if sorted(p[0] for p in pairs) != sorted(ids) or any(p[0] != p[1][0] or p[1][1] != len(data[p[0]]['y']) for p in pairs):
         problems.append(f'interleaved client_ids() / client_sizes() scans give {pairs[:4]}... for ids {sorted(ids)[:4]}...')
       seen = []
       for cid, ds in fd.clients():
         seen.append(cid)
         if fd.client_size(cid) != len(data[cid]['y']) or project(dict(fd.get_client(cid).raw_examples)) != project(data[cid]) or project(dict(ds.raw_examples)) != project(data[cid]):
           problems.append(f'client {cid!r}: a point lookup during a scan disagrees with what was written')
-      if seen != sorted(ids):
+      if sorted(seen) != sorted(ids):
         problems.append(f'a scan with point lookups in its body visits {len(seen)} of {len(ids)} clients')
     except Exception as ex:  # pylint: disable=broad-except
       problems.append(f'interleaved reads fail: {type(ex).__name__}: {str(ex)[:80]}')
